@@ -187,6 +187,26 @@ def _worker_run(item):
 
 
 def run_property(pid, mod, tier, seed):
+    # every scratch file of the run lives in one private directory that is removed at the end (worker processes of
+    # a fork pool do not run atexit handlers)
+    import shutil
+    import tempfile
+    scratch = tempfile.mkdtemp(prefix='verif_%s_' % pid)
+    old_tmp = os.environ.get('TMPDIR')
+    os.environ['TMPDIR'] = scratch
+    tempfile.tempdir = None
+    try:
+        return _run_property(pid, mod, tier, seed)
+    finally:
+        if old_tmp is None:
+            os.environ.pop('TMPDIR', None)
+        else:
+            os.environ['TMPDIR'] = old_tmp
+        tempfile.tempdir = None
+        shutil.rmtree(scratch, ignore_errors=True)
+
+
+def _run_property(pid, mod, tier, seed):
     t0 = time.time()
     items = mod.shards(tier, seed)
     total = ShardResult()
